@@ -372,31 +372,85 @@ deriving DecidableEq, Repr
 """
 
 
+def spl_forms(out, info):
+    s = src("eroders/spl.hpp")
+    b = func_body(s, r"void set_slope_exp\(double value\)\s*\{", "set_slope_exp")
+    if re.search(r"m_linear\s*=\s*\(std::fabs\(value\)\s*-\s*1\)\s*<=\s*std::numeric_limits<double>::epsilon\(\);", b):
+        form = 0
+    elif re.search(r"m_linear\s*=\s*std::fabs\(value\s*-\s*1(\.0?)?\)\s*<=\s*std::numeric_limits<double>::epsilon\(\);", b):
+        form = 1
+    else:
+        raise Fail("m_linear classification expression")
+    need(re.search(r"if\s*\(!m_linear\s*&&\s*!m_flow_graph\.single_flow\(\)\)\s*\{\s*throw std::invalid_argument", b), "multi-direction / non-linear rejection")
+    out.append("/-- `m_linear`: 0 = `(fabs(n) - 1) <= eps`, 1 = `fabs(n - 1) <= eps` -/")
+    out.append("def splLinearForm : Nat := %d" % form)
+    i = s.index("spl_eroder<FG, S>::erode(")
+    e = s[i:]
+    if re.search(r"if\s*\(std::fabs\(func\)\s*<=\s*m_tolerance\)", e):
+        two = True
+    elif re.search(r"if\s*\(func\s*<=\s*m_tolerance\)", e):
+        two = False
+    else:
+        raise Fail("Newton exit test")
+    out.append("/-- Newton exit test: `fabs(func) <= tol` (true) or the one-sided `func <= tol` (false) -/")
+    out.append("def splNewtonTwoSided : Bool := %s" % ("true" if two else "false"))
+    need(re.search(r"m_erosion\.fill\(0\);", e), "erosion reset at the start of erode")
+    need(re.search(r"if\s*\(inode_elevation_updated < elevation_flooded\)\s*\{[^}]*m_n_corr\+\+;\s*inode_elevation_updated = elevation_flooded \+ std::numeric_limits<data_type>::min\(\);", e, flags=re.S), "clamp to the flooded level")
+    need(re.search(r"if\s*\(inode_elevation <= elevation_flooded\)\s*\{[^}]*continue;", e, flags=re.S), "lake test")
+    info["spl"] = dict(linear_form=form, newton_two_sided=two)
+
+
+SECTIONS = [  # (name, function, properties whose tie depends on it)
+    ("raster_tables", raster_tables, ["C07", "C08"]),
+    ("iterator_order", iterator_order, ["C08", "C17"]),
+    ("op_flags", op_flags, ["C20", "C16"]),
+    ("snapshot_members", snapshot_members, ["C16"]),
+    ("pool_orders", pool_orders, ["C10", "C11", "C15"]),
+    ("spl_forms", spl_forms, ["C12", "C13"]),
+]
+FALLBACK = os.path.join(HERE, "translate_fallback.json")
+
+
 def main():
+    """Each section is extracted on its own.  When a section's pattern is no longer found, the
+    last known-good text of that section (translate_fallback.json, written with --save-fallback on
+    the pinned tree) is emitted so that the rest of the model still builds, and the section is
+    listed under `failed_sections`: check.py reports a broken tie for exactly the properties that
+    depend on it."""
     out, info = [], {}
-    try:
-        raster_tables(out, info)
-        iterator_order(out, info)
-        op_flags(out, info)
-        snapshot_members(out, info)
-        pool_orders(out, info)
-    except Fail as e:
-        print("TRANSLATE-FAIL %s" % e)
-        sys.exit(2)
-    except FileNotFoundError as e:
-        print("TRANSLATE-FAIL missing file %s" % e)
-        sys.exit(2)
-    text = HEADER + "\n" + "\n\n".join(out) + "\n\nend Fs.Gen\n"
+    texts, failed = {}, {}
+    fb = json.load(open(FALLBACK)) if os.path.exists(FALLBACK) else {}
+    for name, fn, props in SECTIONS:
+        sec = []
+        try:
+            fn(sec, info)
+            texts[name] = "\n\n".join(sec)
+        except (Fail, FileNotFoundError, ValueError) as e:
+            failed[name] = dict(why=str(e), properties=props)
+            if name not in fb:
+                print("TRANSLATE-FAIL %s (no fallback)" % e)
+                sys.exit(2)
+            texts[name] = "-- SECTION %s: PATTERN NOT FOUND IN THE CURRENT SOURCE (%s); last known-good values\n" % (name, e) + fb[name]
+    if "--save-fallback" in sys.argv:
+        if failed:
+            print("TRANSLATE-FAIL cannot save fallback: %s" % failed)
+            sys.exit(2)
+        json.dump(texts, open(FALLBACK, "w"), indent=1)
+    text = HEADER + "\n" + "\n\n".join(texts[name] for name, _, _ in SECTIONS) + "\n\nend Fs.Gen\n"
     old = None
     if os.path.exists(OUT):
         old = open(OUT).read()
     if old != text:
         with open(OUT, "w") as f:
             f.write(text)
+    info["failed_sections"] = failed
     os.makedirs(os.path.join(HERE, "build"), exist_ok=True)
     with open(os.path.join(HERE, "build", "translate_info.json"), "w") as f:
         json.dump(info, f, indent=1, default=str)
-    print("translate ok (%s)" % ("unchanged" if old == text else "rewritten"))
+    if failed:
+        print("translate partial: sections %s not recognised (%s)" % (sorted(failed), "; ".join("%s: %s" % (k, v["why"]) for k, v in failed.items())))
+    else:
+        print("translate ok (%s)" % ("unchanged" if old == text else "rewritten"))
 
 
 if __name__ == "__main__":
